@@ -11,7 +11,7 @@ def consts(site, wf, sup, shared=False, tagger="none"):
         + ([["tagger", tagger]] if tagger != "none" else [])
     root = ["dc", "R", [["v", ["int"], ["req"], []]],
             [["classvars", [["type", ["str", "r"]]]]] + ([["discriminator", dopts], ["discr_field", "type"]] if site == "config" else [])]
-    holder = ["dc", "HD", [["f", ["discr", root, dopts], ["req"], []]], []]
+    holder = ["dc", "HD", [["f", ["discr", ["opt", root] if site == "fieldopt" else ["list", root] if site == "fieldlist" else root, dopts], ["req"], []]], []]
     if site == "pair":
         root2 = ["dc", "R2", [["v", ["int"], ["req"], []]], [["classvars", [["type", ["str", "r2"]]]]]]
         holder = ["dc", "HD", [["f", ["tuple", [["discr", root, dopts], ["discr", root2, dopts]]], ["req"], []]], []]
@@ -67,6 +67,8 @@ def run(prop, tier, seed):
     histories(rep, wd, combos, maxlen)
     # one Discriminator object shared with an unrelated class's Config (defined at any point of the history)
     histories(rep, wd, [("codec", True, True), ("field", True, True)], maxlen, shared=True, label_extra=" shared Discriminator object")
+    # the Annotated that carries the Discriminator wraps the base indirectly (Optional / List)
+    histories(rep, wd, [("fieldopt", True, False), ("fieldlist", True, False), ("fieldlist", False, True)], maxlen - 1, label_extra=" discriminator on an outer Annotated")
     # variant_tagger_fn: the tag of a class is what the function returns for it (one tag / a list of tags)
     for tg in ("one", "two"):
         histories(rep, wd, [("field", True, False), ("codec", True, True)] + ([("config", True, False)] if tg == "two" else []), maxlen - 1, tagger=tg,
